@@ -1104,6 +1104,74 @@ fn sweep_rule_only(ctx: &Ctx, tabs: &Tables, years: i64, include_noninterleaving
     t
 }
 
+/// searches in rule-only zones whose day times / offsets sit at numeric thresholds (rulealpha::grid_*): every pair of grid day
+/// times on three day pairs, every pair of grid offsets on two; two years per zone, readings around every rule transition
+fn sweep_rule_time_grid(ctx: &Ctx, tabs: &Tables, thorough: bool) -> Tally {
+    let (ts, os) = (grid_times(), grid_offsets());
+    let pairs = grid_day_pairs();
+    let mut specs: Vec<RuleSpec> = vec![];
+    for &(a, b) in pairs.iter().take(if thorough { 8 } else { 3 }) {
+        for &st in &ts {
+            for &et in &ts {
+                specs.push(spec(a, b, st, et, (0, H)));
+            }
+        }
+    }
+    for &(a, b) in pairs.iter().skip(1).take(if thorough { 6 } else { 2 }) {
+        for &so in &os {
+            for &dof in &os {
+                specs.push(spec(a, b, 2 * H, 2 * H, (so, dof)));
+            }
+        }
+    }
+    let name = "rule_time_grid";
+    let t = specs
+        .par_chunks(64)
+        .enumerate()
+        .map(|(ci, chunk)| {
+            let mut tl = Tally::default();
+            let r = guard(|| {
+                let mut tl = Tally::default();
+                let mut ls = vec![];
+                for (k, r) in chunk.iter().enumerate() {
+                    let (ms, md) = (crate::rule::std_type(r), crate::rule::dst_type(r));
+                    if alt(r, &ms, &md).is_err() {
+                        continue;
+                    }
+                    let line = Arc::new(Timeline::from_tables(r, tabs.tab(r.start), tabs.tab(r.end)));
+                    if !matches!(line.classify(), Class::StartFirst | Class::EndFirst) {
+                        continue;
+                    }
+                    let z = rule_zone(r, line.clone());
+                    let iz = ImplZone::from_model(&z).unwrap();
+                    let zr = iz.zref().unwrap();
+                    tl.zones += 1;
+                    let y0 = 2001 + ((ci * 64 + k) as i64 % 27);
+                    for y in y0..y0 + 2 {
+                        ls.clear();
+                        rule_readings(&line, r, tabs, y, &mut ls);
+                        ls.sort();
+                        ls.dedup();
+                        for &l in &ls {
+                            if let Some(f) = Fields::of_local(ctx.cyc, l, 0) {
+                                check_search(ctx, &z, zr, &f, name, &mut tl);
+                            }
+                        }
+                    }
+                }
+                tl
+            });
+            match r {
+                Ok(t) => tl = tl.merge(t),
+                Err(m) => ctx.rec.violation(name, json!({"kind":"rule_grid_chunk","chunk":ci}), json!("no panic"), json!(m)),
+            }
+            tl
+        })
+        .reduce(Tally::default, Tally::merge);
+    ctx.rec.sub(name, t.json());
+    t
+}
+
 /// searches of one rule-only zone around its own transitions and at both ends of the given years (I4: local and UTC year of
 /// every candidate instant inside [i32::MIN + 2, i32::MAX - 2]); the model evaluates the rule directly (no year window)
 fn extreme_years_for_rule(ctx: &Ctx, r: RuleSpec, years: &[i64], tl: &mut Tally) {
@@ -1740,6 +1808,10 @@ pub fn run_sweeps(ctx: &Ctx, tabs: &Tables, thorough: bool, light: bool) -> Tall
     // 3b'. rules with ties in most years, every year of the cycle
     if !light && (thorough || prop != Prop::C17) {
         total = total.merge(sweep_tie_rules(ctx, tabs, thorough));
+    }
+    // 3b''. day times and offsets at numeric thresholds
+    if !light && (thorough || prop != Prop::C17) {
+        total = total.merge(sweep_rule_time_grid(ctx, tabs, thorough));
     }
     // 3c. first and last years of the rule arithmetic
     total = total.merge(sweep_rule_extreme_years(ctx));
